@@ -58,6 +58,7 @@ fn main() {
         },
         "C04" => mcw::steps::c04(&mut ctx),
         "C05" => mcw::steps::c05(&mut ctx),
+        "C08" => mcw::c08::run(&mut ctx),
         "C09" => mcw::steps::c09(&mut ctx),
         "C10" => mcw::steps::c10(&mut ctx),
         "C16" => mcw::c16::run(&mut ctx),
